@@ -46,20 +46,19 @@ class Replacer(MultiFunction):
 
     def external_operator(self, o):
         """Replace an external_operator."""
-        o = self.mapping.get(o, o)
-        if isinstance(o, ExternalOperator):
-            new_ops = tuple(replace(op, self.mapping) for op in o.ufl_operands)
-            new_args = tuple(replace(arg, self.mapping) for arg in o.argument_slots())
-            return o._ufl_expr_reconstruct_(*new_ops, argument_slots=new_args)
-        return o
+        if o in self.mapping:
+            # A mapped operator is replaced by its image as it is (images are not substituted into)
+            return self.mapping[o]
+        new_ops = tuple(replace(op, self.mapping) for op in o.ufl_operands)
+        new_args = tuple(replace(arg, self.mapping) for arg in o.argument_slots())
+        return o._ufl_expr_reconstruct_(*new_ops, argument_slots=new_args)
 
     def interpolate(self, o):
         """Replace an interpolate."""
-        o = self.mapping.get(o, o)
-        if isinstance(o, Interpolate):
-            new_args = tuple(replace(arg, self.mapping) for arg in o.argument_slots())
-            return o._ufl_expr_reconstruct_(*reversed(new_args))
-        return o
+        if o in self.mapping:
+            return self.mapping[o]
+        new_args = tuple(replace(arg, self.mapping) for arg in o.argument_slots())
+        return o._ufl_expr_reconstruct_(*reversed(new_args))
 
     def coefficient_derivative(self, o):
         """Replace a coefficient derivative."""
